@@ -17,6 +17,9 @@ pub struct Session {
     pub universe: Vec<Vec<String>>,
     pub rot: usize,
     pub light: bool, // omit layer/twin bookkeeping
+    /// lock-step partner (C02: the same calls on MemoryFS and on PhysicalFS): executed after this
+    /// session's call, recorded in the same event as "other"
+    pub other: Option<Box<Session>>,
 }
 
 /// create the entries of an LTS snapshot on a filesystem through its own handle (parents first:
@@ -72,11 +75,14 @@ impl Session {
         if let Some(t) = &twin {
             put_canaries(t.under.as_ref().unwrap(), &cx);
         }
-        Session { w, twin, cx, universe: universe.to_vec(), rot: 0, light: false }
+        Session { w, twin, cx, universe: universe.to_vec(), rot: 0, light: false, other: None }
     }
 
     /// construct an LTS state through the configuration's own public API (and identically in the twin world)
     pub fn populate_state(&self, snap: &Snap) {
+        if let Some(o) = &self.other {
+            o.populate_state(snap);
+        }
         populate(&self.w.root, &self.universe, snap, &self.cx);
         if let Some(t) = &self.twin {
             populate(&t.under.as_ref().unwrap().root, &self.universe, snap, &self.twin_cx());
@@ -148,6 +154,10 @@ impl Session {
             e["outside"] = raw_snapshot(&u.root, &self.cx, true);
             let t = self.twin.as_ref().unwrap().under.as_ref().unwrap();
             e["twinobs"] = observe(&t.root, &self.universe, &self.twin_cx(), self.rot);
+        }
+        if let Some(o) = self.other.as_mut() {
+            let oe = o.init_event();
+            e["other"] = json!({"cfg":oe["cfg"],"obs":oe["obs"]});
         }
         e
     }
@@ -238,6 +248,11 @@ impl Session {
             let tres = exec(&t.root, &t.root, op, &tcx);
             let tobs = observe(&t.root, &self.universe, &tcx, self.rot);
             e["twin"] = json!({"res":tres.to_json(),"obs":tobs});
+        }
+        if let Some(o) = self.other.as_mut() {
+            o.rot = self.rot - 1; // same tick rotation
+            let oe = o.step(op);
+            e["other"] = json!({"res":oe["res"],"obs":oe["obs"]});
         }
         e
     }
